@@ -262,7 +262,7 @@ def run_bus(ctx, counter):
     pipe = bad['conn'].pipes[0]
     delivered = [pipe.base]
     what = [None]
-    nmsgs = 3 + ds.choose(18)
+    nmsgs = 3 + ds.choose(18 * (3 if ctx.tier == 'thorough' else 1))
     nfaults = 1 + ds.choose(4)
     fault_at = sorted(set(ds.choose(nmsgs) for _ in range(nfaults)))
     outcomes = []
@@ -367,7 +367,7 @@ def run_client(ctx, counter):
     rig.calm()
     got_signals = []
     rig.call(lambda: cl.router.addMatch(lambda m: got_signals.append(m), None, None, 'org.sim.Bg'))
-    nmsgs = 3 + ds.choose(18)
+    nmsgs = 3 + ds.choose(18 * (3 if ctx.tier == 'thorough' else 1))
     nfaults = 1 + ds.choose(4)
     fault_at = sorted(set(ds.choose(nmsgs) for _ in range(nfaults)))
     sizew = [[3, 2, 1, 3, 2, 2, 1, 2], [1, 0, 0, 0, 0, 0, 0, 0]][ds.choose(2)]
